@@ -266,6 +266,31 @@ def rule_memo_owner(rep: Report, repo: Repo):
                 rep.check(use == "read", RULE, inst,
                           "the memo may be mutated or aliased only inside BlockSeries.__init__/__getitem__/pop", where)
     rep.floor(RULE, "accesses of the memo attribute", n_sites, 4)
+    # T5b: the element function of a series is called by BlockSeries.__getitem__ only -- that call is the one whose result is
+    # memoised; `X.eval(...)` anywhere else computes the element again on every request and leaves no trace in the memo
+    n_calls = 0
+    for mod, tree in repo.all_trees().items():
+        for node in ast.walk(tree):
+            if not (isinstance(node, ast.Call) and isinstance(node.func, ast.Attribute) and node.func.attr == "eval"):
+                continue
+            f, cls = None, None
+            p = node
+            while hasattr(p, "_parent"):
+                p = p._parent
+                if f is None and isinstance(p, (ast.FunctionDef, ast.Lambda)):
+                    f = p
+                if isinstance(p, ast.ClassDef):
+                    cls = p
+                    break
+            recv = norm(node.func.value)
+            if recv in ("sympy", "ast") or recv.startswith("sympy."):
+                continue
+            n_calls += 1
+            where = repo.loc(mod, node) if mod in repo.trees else f"pymablock/{mod}.py:{node.lineno}"
+            owner = cls is not None and cls.name == "BlockSeries" and getattr(f, "name", "") == "__getitem__" and recv == "self"
+            rep.check(owner, RULE, f"{mod}::{getattr(f, 'name', '<module>')} T5b call `{norm(node)[:50]}` of a series' element function",
+                      "only BlockSeries.__getitem__ may call `.eval`: its result is what the memo stores (exactly-once evaluation)", where)
+    rep.floor(RULE, "calls of a series' element function", n_calls, 1)
     # T6: __init__ stores a copy of the caller's dict
     init = repo.find("series::BlockSeries::__init__", RULE)
     stores = [n for n in own_nodes(init) if isinstance(n, ast.Assign)
